@@ -16,14 +16,19 @@
         check on every case).
     From bytes (composition with C07's scanner model): C12_parse_from_bytes_linear.
 
-    Not proved (oracle of Cplx/ComplexitySpec.v only): a polynomial bound for the cost walk on
-    documents whose fragment definitions contain no spreads (the complement of the known finding);
-    a lower bound for the pinned merge algorithm for all n (witnessed for n <= 6). *)
+      C12_merge_family_exponential_before_fix — defect 15 for every n (at least 6^(n-1)/3 and 2^n calls).
+      C12_cost_run_expansions — the cost walk expands exactly one definition per spread path;
+      C12_cost_run_linear_when_bodies_flat — hence linearly many when no fragment body spreads.
+
+    Not proved (oracle of Cplx/ComplexitySpec.v only): the STEP count of the cost walk (the theorems
+    count expansions); the work of the scanner and of the validator rules that do not follow
+    fragments (tied two-sidedly to bytes resp. AST nodes by the block counters, factor 4 resp. 2). *)
 From Coq Require Import List NArith ZArith Bool.
 From ApiFu Require Import Cplx.Tables Cplx.ParserDepthModel Cplx.MergeCountModel Cplx.CostWalkCount
      Cplx.ComplexityDecode Cplx.ComplexitySpec Cplx.ParserDepthProofs Cplx.CostWalkProofs Cplx.MergeFamily
-     Cplx.MergeCountProofs Cplx.FragmentWalkCount Cplx.SpreadLists Cplx.FragmentWalkProofs.
-From ApiFu Require Base.Sexp Lex.LexModel Cplx.ParseFromBytes.
+     Cplx.MergeCountProofs Cplx.FragmentWalkCount Cplx.SpreadLists Cplx.FragmentWalkProofs
+     Cplx.MergeLowerBound Cplx.CostWalkPaths.
+From ApiFu Require Base.Sexp Lex.LexModel Cplx.TokenClass Cplx.ParseFromBytes.
 Import ListNotations.
 Open Scope Z_scope.
 
@@ -119,13 +124,51 @@ Theorem C12_parse_from_bytes_linear : forall bs : Base.Sexp.bytes,
   exists ts es,
     Lex.LexModel.lex false bs = Lex.LexModel.Done ts es
     /\ (length ts <= length bs)%nat
-    /\ match parse go_cfg (map ParseFromBytes.tok_class ts) with
+    /\ match parse go_cfg (map TokenClass.tok_class ts) with
        | Ok s' | Err _ s' => steps s' <= 8 * Z.of_nat (length bs) + 6
        | OutOfFuel => False
        end
-    /\ (forall s', parse go_cfg (map ParseFromBytes.tok_class ts) = Err DepthErr s' ->
-                   1000 < 6 + 4 * maxnest (map ParseFromBytes.tok_class ts)).
+    /\ (forall s', parse go_cfg (map TokenClass.tok_class ts) = Err DepthErr s' ->
+                   1000 < 6 + 4 * maxnest (map TokenClass.tok_class ts)).
 Proof. exact ParseFromBytes.parse_from_bytes_linear. Qed.
+
+(** Defect 15 for every n >= 1: on  {...F0} fragment Fi on T{a{...F(i+1)} a{...F(i+1)}} (i < n)
+    fragment Fn on T{i}  ([mfam n], size 13 n + 11) the pass of the pinned tree (nothing remembered)
+    never runs out of fuel and calls validateSameResponseShape at least 2^n and at least 6^(n-1)/3
+    times. *)
+Theorem C12_merge_family_exponential_before_fix : forall n : nat, (1 <= n)%nat ->
+  doc_size (mfam n) = 13 * Z.of_nat n + 11 /\
+  match merge_run false (mfam n) with
+  | MOk st | MErr st => 2 ^ Z.of_nat n <= n_shape st /\ 6 ^ Z.of_nat (n - 1) <= 3 * n_shape st
+  | MOutOfFuel => False
+  end.
+Proof. exact merge_family_exponential_before_fix. Qed.
+
+(** The growth function of the cost walk, for every document on which the walk ends without error:
+    the number of fragment definitions it expands IS the number of spread paths starting in the
+    operation ([paths]: a spread reached through fields and inline fragments counts once, plus once
+    for every path starting in the body of the fragment it names). *)
+Theorem C12_cost_run_expansions : forall (D : doc) (st : cst),
+  cost_run D = COk st ->
+  c_expansions st =
+  match d_ops D with
+  | [op] => paths (arr_of_list (d_fields D)) (arr_of_list (d_sets D)) (frag_table D) (cost_fuel D) (op_root op)
+  | _ => 0
+  end.
+Proof. exact cost_run_expansions. Qed.
+
+(** ... so a document whose fragment bodies contain no spread is walked with at most one expansion per
+    spread occurrence below the operation: the complement of the known finding is linear. *)
+Theorem C12_cost_run_linear_when_bodies_flat : forall (D : doc) (st : cst),
+  (forall nm fd fuel, aget (frag_table D) nm = Some fd ->
+                      occurrences (arr_of_list (d_fields D)) (arr_of_list (d_sets D)) fuel (fr_root fd) = 0) ->
+  cost_run D = COk st ->
+  c_expansions st <=
+  match d_ops D with
+  | [op] => occurrences (arr_of_list (d_fields D)) (arr_of_list (d_sets D)) (cost_fuel D) (op_root op)
+  | _ => 0
+  end.
+Proof. exact cost_run_linear_when_bodies_flat. Qed.
 
 (** Defect 16, known (key cost-walk-reexpansion): the property's clause "cost calculation
     included" is REFUTED for the cost walk.  For every n the document
@@ -169,6 +212,9 @@ Print Assumptions C12_merge_steps_bound_poly.
 Print Assumptions C12_cycle_steps_le_bound.
 Print Assumptions C12_var_steps_le_bound.
 Print Assumptions C12_parse_from_bytes_linear.
+Print Assumptions C12_merge_family_exponential_before_fix.
+Print Assumptions C12_cost_run_expansions.
+Print Assumptions C12_cost_run_linear_when_bodies_flat.
 Print Assumptions C12_cost_walk_exponential_refuted.
 Print Assumptions C12_merge_exponential_before_fix_witness.
 Print Assumptions C12_merge_family_after_fix_witness.
